@@ -750,6 +750,12 @@ def m_str_eq(ex, callee, args):
     return r if callee.endswith('::eq') else b_not(r)
 
 
+@model(r'^core::str::<impl str>::eq_ignore_ascii_case$|^str::eq_ignore_ascii_case$|^core::slice::ascii::<impl \[u8\]>::eq_ignore_ascii_case$')
+def m_str_eq_ignore_ascii_case(ex, callee, args):
+    # equal lengths and bytes equal after folding A-Z (bytes >= 0x80 are compared as they are)
+    return S.s_eq(as_str(args[0]), as_str(args[1]), fold=True)
+
+
 class CharSet:
     """pattern that is a set of (ASCII) chars: `['a', 'b']`, `&[char]`"""
     def __init__(self, chars):
